@@ -42,10 +42,10 @@ CLAIMED.update({
   "Same model and binding as C01, roll-heavy behaviours: roll initiation/activation interleaved at single-task granularity with entitlement changes, suspension, ROA changes and syncs. Decides: every key in use has a certificate, staging key publishes manifest+CRL only, after activation products move to the new key in one publication (old key's products tracked separately until the next sync), activation is refused only in the two cases the spec predicts, and every settle ends in the single-active-key state or at rest in roll_new. 'Always completes' is checked by TLC as temporal properties under weak fairness of the background tasks (MC_Krill_live: a new key gets its certificate, after the activation the old key is revoked and its publication point goes away; exceptions are exactly the recorded findings and a parent that no longer knows the CA), with a false temporal property refuted on every run.",
   "§6 C04, §4.3"),
  "C14": krill_claim(
-  "Same model and binding as C01, with the maintenance tasks (Republish, Renew) as actions whose effect depends on whether something is due. Due-ness is produced on the real code by restarting the instance with timing values whose margins exceed the lifetimes (everything due) and back (nothing due), never by changing code. Around every maintenance run TLC compares the serial-number level facts of every real key decoded from the repository: manifest and CRL number +1 exactly and the same objects (re-issue), every route origin object replaced by a new one with the published payloads unchanged (renewal), nothing at all changed when nothing is due. In every state of every trace: manifest and CRL numbers agree and never go down, validity windows contain the present, and what a CA's object store holds is published whenever no repository synchronisation is pending (operations while everything is due exercise re-issue as a side effect of commands).",
+  "Same model and binding as C01, with the maintenance tasks (Republish, Renew) as actions whose effect depends on whether something is due. Due-ness is produced on the real code by restarting the instance with timing values whose margins exceed the lifetimes (everything due) and back (nothing due), never by changing code. Around every maintenance run TLC compares the serial-number level facts of every real key decoded from the repository: manifest and CRL number +1 exactly and the same objects (re-issue), every route origin object replaced by a new one with the published payloads unchanged (renewal), nothing at all changed when nothing is due; under a margin between two manifest lifetimes exactly the resource classes with a key set inside the margin re-issue (all their sets together: current, staging, old), the other classes of the same CA do not, and the CA's publication follows whichever class the run looked at last. In every state of every trace: manifest and CRL numbers agree and never go down, validity windows contain the present, and what a CA's object store holds is published whenever no repository synchronisation is pending (operations while everything is due exercise re-issue as a side effect of commands).",
   "§6 C14, §4.3"),
  "C19": krill_claim(
-  "The status reports are variables of Krill.tla (per CA: outcome of the most recent parent exchange and entitlements last returned, outcome of the most recent repository exchange and whether the shown list of published objects is what the server holds; per child: the outcome its parent shows), assigned in the step of the exchange they report. TLC checks exhaustively (bounded) that after every successful repository synchronisation the shown list is the server's, also after the server's operator removed and re-created a publisher, and that removing a child or CA removes the entries. On the real code the reports (get_ca_status for every CA, compared with get_publisher_details as multisets of uri+content) are projected after every event of generated behaviours with failing exchanges (unknown publisher, removed child, nothing to offer), publisher removal/re-creation, bulk sync and restarts, and TLC validates them against the values the spec assigns; a restart must change nothing.",
+  "The status reports are variables of Krill.tla (per CA: outcome of the most recent parent exchange and entitlements last returned, outcome of the most recent repository exchange and whether the shown list of published objects is what the server holds; per child: the outcome its parent shows), assigned in the step of the exchange they report. TLC checks exhaustively (bounded) that after every successful repository synchronisation the shown list is the server's, also after the server's operator removed and re-created a publisher, and that removing a child or CA removes the entries. On the real code the reports (get_ca_status for every CA, compared with get_publisher_details as multisets of uri+content) are projected after every event of generated behaviours with failing exchanges (unknown publisher, removed child, nothing to offer), publisher removal/re-creation, bulk sync and restarts, and TLC validates them against the values the spec assigns; a restart must change nothing. A CA deleted and created again under the same name (after its parent removed the child and the server's operator the publisher it left behind) starts without any report: nothing of the deleted CA's entries may come back.",
   "§6 C19, §4.3"),
  "C17": {
   "technique": "TLA+ model of RFC 6811 validation over an abstract prefix tree (spec/Rov.tla) checked with TLC; TLC-enumerated (ROA set, announcement set) cases embedded at concrete IPv4/IPv6 places and run through the real BgpAnalyser; TLC (RovTrace.tla) judges every report line",
